@@ -93,7 +93,8 @@ Fixpoint sid_by_name (sch : schema) (names : list (sid * (N * bytes))) (p : opti
   end.
 
 (* modules: identifiers as names and prefixes (the prefix is not xmlns), non-empty namespace of plain characters, a
-   module is found by its name and by its namespace, and a prefix stands for one namespace only *)
+   module is found by its name and by its namespace. Two modules MAY have the same prefix (the printer numbers the
+   prefixes it declares since 91f0178) *)
 Definition mods_okb (t : doctabs) : bool :=
   forallb (fun e : N * modinfo =>
     let '(m, mi) := e in
@@ -105,9 +106,7 @@ Definition mods_okb (t : doctabs) : bool :=
     | None => false end &&
     match mod_by_name (dt_mods t) (mi_name mi) with
     | Some mi' => beq_bytes (mi_ns mi') (mi_ns mi) && beq_bytes (mi_prefix mi') (mi_prefix mi)
-    | None => false end &&
-    forallb (fun e' : N * modinfo =>
-               negb (beq_bytes (mi_prefix mi) (mi_prefix (snd e'))) || beq_bytes (mi_ns mi) (mi_ns (snd e'))) (dt_mods t))
+    | None => false end)
   (dt_mods t).
 
 (* every schema node has a name (an identifier) in a listed module and is found by parent, module and name *)
@@ -169,21 +168,38 @@ Definition render_attrs (l : list pattr) : bytes := flat_map render_attr l.
 Definition print_ns_default (st : nsstack) (ns : bytes) : list pattr * nsstack :=
   if ns_has_default st ns then ([], st) else ([PDecl None ns], (None, ns) :: st).
 
+(* xml_print_ns() since 91f0178, new declaration with a prefix that is only a suggestion (no LYXML_PREFIX_REQUIRED): while
+   some declaration in the scope uses the prefix, it is replaced by  <suggested><n>  with n = 1, 2, ... (asprintf "%s%u",
+   restarting the scan). The smallest n whose candidate is free is found after at most as many steps as there are
+   declarations; the fuel of the model is that bound (XmlDocP.uniq_prefix_free: the result is free). *)
+Definition prefix_used (st : nsstack) (p : bytes) : bool :=
+  existsb (fun e : option bytes * bytes => match fst e with Some q => beq_bytes q p | None => false end) st.
+Definition prefix_cand (sug : bytes) (n : N) : bytes := if n =? 0 then sug else sug ++ N_to_dec n.
+Fixpoint uniq_from (fuel : nat) (st : nsstack) (sug : bytes) (n : N) : bytes :=
+  match fuel with
+  | O => prefix_cand sug n
+  | S f => if prefix_used st (prefix_cand sug n) then uniq_from f st sug (n + 1) else prefix_cand sug n
+  end.
+Definition uniq_prefix (st : nsstack) (sug : bytes) : bytes := uniq_from (length st) st sug 0.
+
 Definition print_ns_prefix (st : nsstack) (ns pfx : bytes) (required : bool) : list pattr * nsstack * bytes :=
   match ns_find_prefix st ns pfx required with
   | Some q => ([], st, q)
-  | None => ([PDecl (Some pfx) ns], (Some pfx, ns) :: st, pfx)
+  | None =>
+      let p := if required then pfx else uniq_prefix st pfx in
+      ([PDecl (Some p) ns], (Some p, ns) :: st, p)
   end.
 
-(* xml_print_meta(): for every metadata instance the declaration of its module's namespace with the module's prefix
-   (LYXML_PREFIX_REQUIRED) when it is not in scope, then the attribute *)
+(* xml_print_meta(): for every metadata instance the declaration of its module's namespace when no prefixed declaration
+   of it is in scope - the module's prefix is a suggestion (no LYXML_PREFIX_REQUIRED since 91f0178) -, then the attribute
+   with the prefix in scope *)
 Fixpoint print_metas (t : doctabs) (st : nsstack) (m : list (bytes * bytes)) : list pattr * nsstack :=
   match m with
   | [] => ([], st)
   | (k, v) :: m' =>
       let '(mn, nm) := split_colon k in
       let mi := match mod_by_name (dt_mods t) mn with Some i => i | None => mi_none end in
-      let '(d, st1, q) := print_ns_prefix st (mi_ns mi) (mi_prefix mi) true in
+      let '(d, st1, q) := print_ns_prefix st (mi_ns mi) (mi_prefix mi) false in
       let '(r, st2) := print_metas t st1 m' in
       (d ++ PMeta q nm v :: r, st2)
   end.
